@@ -76,8 +76,6 @@ REGISTRY["char_names_name"] = (U + "char_names::name", "the table entry of the b
 TERMAPI += ["char_names_ctor", "char_names_name"]
 
 _DIAG = {
-    "write_state_diag_str": "per state: its items, then for every nonterminal column the goto, for every term column the "
-                            "action with the rule numbers as written and the conflict notes",
     "write_rule_diag_str": "left side, ' <- ', the right side's symbols separated by blanks (nothing for an empty rule)",
     "write_situation_diag_str": "the rule with the dot at `after` and the lookahead",
     "find_reduction_rule": "the rule number (as written) of the reduce item of the state for that lookahead",
